@@ -374,6 +374,23 @@ def check(case, impl, repo=None):
                 j += 2
                 continue
             if a == "(" and b == "(":
+                # `((e) * (f)).x` of a scalar expression that itself starts with a parenthesis is `(e) * (f)`
+                d = 0
+                k = i
+                while k < len(H):
+                    if H[k] == "(":
+                        d += 1
+                    elif H[k] == ")":
+                        d -= 1
+                        if d == 0:
+                            break
+                    k += 1
+                inner = H[i + 1:k]
+                if inner and k + 2 < len(H) and H[k + 1] == "." and H[k + 2] in ("x", "r") and M[j:j + len(inner)] == inner \
+                        and M[j + len(inner):j + len(inner) + 1] != ["."] and not any(x in threaded_leaf for x in inner):
+                    i = k + 3
+                    j += len(inner)
+                    continue
                 calls.append((None, 0, ""))
                 i += 1
                 j += 1
@@ -485,8 +502,15 @@ def check(case, impl, repo=None):
                 i += 1
                 j += 4
                 continue
+            # ... and so is a repeated component of a scalar variable (`p0.xx` is `float2(p0)`)
+            if IDENT.match(a) and a not in threaded_leaf and H[i + 1:i + 2] == ["."] and i + 2 < len(H) and re.match(r"^[xr]{2,4}$", H[i + 2]) \
+                    and j + 3 < len(M) and re.match(r"^(float|half|int|uint|double|bool)%d$" % len(H[i + 2]), M[j]) \
+                    and M[j + 1] == "(" and M[j + 2] == a and M[j + 3] == ")":
+                i += 3
+                j += 4
+                continue
             # `(e).x` of a scalar expression is `e`
-            if a == "(" and b != "(":
+            if a == "(":
                 d = 0
                 k = i
                 while k < len(H):
@@ -502,8 +526,17 @@ def check(case, impl, repo=None):
                     i = k + 3
                     j += len(inner)
                     continue
+                # `(e).xx` of a scalar expression is the vector built from it: `float2(e)`
+                if k + 2 < len(H) and H[k + 1] == "." and re.match(r"^[xr]{2,4}$", H[k + 2]) and not any(x in threaded_leaf for x in inner) \
+                        and re.match(r"^(float|half|int|uint|double|bool)%d$" % len(H[k + 2]), b) \
+                        and M[j + 1:j + 2] == ["("] and M[j + 2:j + 2 + len(inner)] == inner and M[j + 2 + len(inner):j + 3 + len(inner)] == [")"]:
+                    i = k + 3
+                    j += len(inner) + 3
+                    continue
             # `.x` of a scalar literal is the scalar
-            if a == "." and b != "." and i + 1 < len(H) and H[i + 1] in ("x", "r") and i >= 1 and (re.match(r"\d", H[i - 1]) or H[i - 1] == ")"):
+            # (the same for a scalar variable: `p2.x` is written `p2`; swizzles are C01's subject, not a threading rule)
+            if a == "." and b != "." and i + 1 < len(H) and H[i + 1] in ("x", "r") and i >= 1 and \
+                    (re.match(r"\d", H[i - 1]) or H[i - 1] == ")" or (IDENT.match(H[i - 1]) and j >= 1 and M[j - 1] == H[i - 1])):
                 i += 2
                 continue
             # a vector cast to a scalar keeps its first component: Metal writes the `.x`
